@@ -146,7 +146,7 @@ CHECKS["C10"] = dict(
          "LIFO/FIFO/random free orders and client deaths. non-trivial = (heap) a block freed between two live neighbours and a later request served from the free list, "
          "(pools) the pool was exhausted and refilled; distinct = distinct hash of the op/result trace",
     simtime_units="allocator operations",
-    probes=["coalesce_both_sides", "reused_free_chunk", "grow_in_place", "extend_top", "move_realloc", "shrink_split", "brk_lowered", "pool_exhausted", "heap_contended", "object_pool_odd_element_size"],
+    probes=["coalesce_both_sides", "reused_free_chunk", "grow_in_place", "extend_top", "move_realloc", "shrink_split", "brk_lowered", "pool_exhausted", "heap_contended", "object_pool_odd_element_size", "pool_reinit"],
     assumptions=["at most 60 live heap blocks (the heap asserts < 100)", "requests stay within the arena (the heap has no upper bound check)", "pool element size >= sizeof(void*)"],
 )
 
@@ -167,7 +167,7 @@ CHECKS["C01"] = dict(
     rule="one run = one seeded op history on one list family. non-trivial = at least two lists were non-empty at once, a move happened and a linked node died "
          "(slist/hlist: a pop and a removal happened); distinct = distinct hash of the executed op trace",
     simtime_units="list operations",
-    probes=["self_move", "move_to_neighbour", "single_element_move", "splice_into_nonempty", "splice_from_empty", "destroy_linked_head_neighbour", "second_removal", "reinsert_linked_node", "sorted_insert", "insert_instead", "head_takeover", "takeover_of_empty_list", "insert_instead_of_unlinked", "removal_during_safe_iteration"],
+    probes=["self_move", "move_to_neighbour", "single_element_move", "splice_into_nonempty", "splice_from_empty", "destroy_linked_head_neighbour", "second_removal", "reinsert_linked_node", "sorted_insert", "insert_instead", "head_takeover", "takeover_of_empty_list", "insert_instead_of_unlinked", "removal_during_safe_iteration", "add_of_uninitialised_or_poisoned_node", "head_reinit_nonempty", "uninitialised_node"],
     assumptions=["single caller at a time", "freeing a still-linked C node is caller misuse and is not generated"],
 )
 
@@ -188,7 +188,7 @@ CHECKS["C02"] = dict(
     rule="one run = one seeded op history over two vectors of one element type (or over one flat_map and one flat_set). non-trivial = a reallocation happened and an insert/erase "
          "not at the end was executed (flat: a lookup hit and a lookup miss); distinct = distinct hash of the op trace",
     simtime_units="container operations",
-    probes=["insert_at_realloc_boundary", "erase_prefix", "self_assign", "assign_from_empty", "fill_0xFF_memory", "range_insert", "copy_assign", "erase_tail", "freed_block_reused_at_once", "alias_argument_with_reallocation", "alias_argument_without_reallocation"],
+    probes=["insert_at_realloc_boundary", "erase_prefix", "self_assign", "assign_from_empty", "fill_0xFF_memory", "range_insert", "copy_assign", "erase_tail", "freed_block_reused_at_once", "alias_argument_with_reallocation", "alias_argument_without_reallocation", "flat_set_custom_order"],
     assumptions=["allocation never fails"],
 )
 
